@@ -137,6 +137,19 @@ func c05Gen(g *core.Gen) {
 			g.Emit(&c05Case{Sizes: []int{65536*n - 3}, Names: []string{"big"}, Slice: 65536, Blocks: 2, G: gg})
 		}
 	}
+	// every name length 1..40 (flat, and with the same length spent on nested directories): padding and packet
+	// framing depend on the length modulo 4
+	for l := 1; l <= 40; l++ {
+		flat := strings.Repeat("n", l)
+		g.Emit(&c05Case{Sizes: []int{9, 5}, Names: []string{flat, "z"}, Slice: 4, Blocks: 2, G: 1})
+		if l >= 3 {
+			nested := "d/" + strings.Repeat("e", l-2)
+			if l >= 7 {
+				nested = "d/ee/" + strings.Repeat("f", l-5)
+			}
+			g.Emit(&c05Case{Sizes: []int{9, 5}, Names: []string{"a", nested}, Slice: 4, Blocks: 2, G: 2})
+		}
+	}
 	// slice size x recovery-block count: the whole grid up to 9 MiB of recovery data (any grouping of the recovery blocks by
 	// size - cache blocking, batching of writes - sits on a product of the two, not on either alone)
 	for _, s := range []int{1024, 4096, 16384, 65536, 262144} {
